@@ -390,3 +390,200 @@ func runE2EV(c *e2evCase) *e2eOut {
 	}
 	return out
 }
+
+// ---- end-to-end variant on INDEX GROUPS (+ virtual channels): units 1..3 are index groups
+// (an index channel and one int64 data channel, exclusive control), units 4..5 are virtual
+// channels (shared control). A writer holds a subset of the units with one authority per
+// unit (applied to every channel of the unit); another writer may control only some of
+// them. Observables: the authorized flag of every (Sync, auto-commit) write and, at the
+// end, what Read returns for the index and the data channel of every group.
+
+type e2egOp struct {
+	Op    string   `json:"op"` // open | write | set | close
+	W     int      `json:"w"`
+	Subj  int      `json:"subj"`
+	Units [][2]int `json:"units"` // open/set: (unit, authority)
+	Keys  []int    `json:"keys"`  // write: units in frame order
+	N     int      `json:"n"`
+	Eou   bool     `json:"eou"`
+}
+
+type e2egCase struct {
+	Ops []e2egOp `json:"ops"`
+}
+
+type e2egOut struct {
+	Steps []e2eStep  `json:"steps"`
+	Read  [][2][]int64 `json:"read"` // per group 1..3: (index stamps, data values)
+	Err   string     `json:"err,omitempty"`
+}
+
+func gIdx(u int) cesium.ChannelKey  { return cesium.ChannelKey(200 + 10*u) }
+func gData(u int) cesium.ChannelKey { return cesium.ChannelKey(201 + 10*u) }
+func gVirt(u int) cesium.ChannelKey { return cesium.ChannelKey(300 + u) }
+
+func unitChannels(units [][2]int) ([]cesium.ChannelKey, []xcontrol.Authority) {
+	var (
+		ks []cesium.ChannelKey
+		as []xcontrol.Authority
+	)
+	for _, p := range units {
+		a := xcontrol.Authority(p[1])
+		if p[0] <= 3 {
+			ks = append(ks, gIdx(p[0]), gData(p[0]))
+			as = append(as, a, a)
+		} else {
+			ks = append(ks, gVirt(p[0]))
+			as = append(as, a)
+		}
+	}
+	return ks, as
+}
+
+func runE2EG(c *e2egCase) *e2egOut {
+	out := &e2egOut{}
+	ctx := context.Background()
+	db, err := cesium.Open(ctx, "", cesium.WithFS(xfs.NewMem()))
+	if err != nil {
+		panic(err)
+	}
+	defer func() { _ = db.Close() }()
+	for u := 1; u <= 3; u++ {
+		if err := db.CreateChannel(ctx,
+			cesium.Channel{Key: gIdx(u), Name: "idx" + strconv.Itoa(u), IsIndex: true, DataType: telem.TimeStampT},
+			cesium.Channel{Key: gData(u), Name: "data" + strconv.Itoa(u), Index: gIdx(u), DataType: telem.Int64T},
+		); err != nil {
+			panic(err)
+		}
+	}
+	for u := 4; u <= 5; u++ {
+		if err := db.CreateChannel(ctx, cesium.Channel{
+			Key: gVirt(u), Name: "cmd" + strconv.Itoa(u), DataType: telem.Uint8T, Virtual: true,
+		}); err != nil {
+			panic(err)
+		}
+	}
+	writers := map[int]*cesium.Writer{}
+	used := map[int]bool{}
+	next := int64(10)
+	for _, o := range c.Ops {
+		st := e2eStep{St: "ok", Auth: 2, TS: []int64{}}
+		switch o.Op {
+		case "open":
+			if used[o.W] {
+				st.St = "skip"
+				break
+			}
+			used[o.W] = true
+			ks, as := unitChannels(o.Units)
+			eou := o.Eou
+			w, err := db.OpenWriter(ctx, cesium.WriterConfig{
+				Channels:                 ks,
+				Start:                    telem.TimeStamp(next) * telem.SecondTS,
+				Authorities:              as,
+				ControlSubject:           xcontrol.Subject{Key: "s" + strconv.Itoa(o.Subj)},
+				Sync:                     new(true),
+				EnableAutoCommit:         new(true),
+				AutoIndexPersistInterval: cesium.AlwaysIndexPersistOnAutoCommit,
+				ErrOnUnauthorized:        &eou,
+			})
+			if err != nil {
+				st.St = errClass(err)
+				st.Err = err.Error()
+				break
+			}
+			writers[o.W] = w
+		case "write":
+			w, ok := writers[o.W]
+			if !ok {
+				st.St = "skip"
+				break
+			}
+			n := o.N
+			if n < 1 {
+				n = 1
+			}
+			stamps := make([]telem.TimeStamp, n)
+			vals := make([]int64, n)
+			for i := range stamps {
+				stamps[i] = telem.TimeStamp(next) * telem.SecondTS
+				vals[i] = next
+				st.TS = append(st.TS, next)
+				next++
+			}
+			var (
+				ks []cesium.ChannelKey
+				ss []telem.Series
+			)
+			for _, u := range o.Keys {
+				if u <= 3 {
+					ks = append(ks, gIdx(u), gData(u))
+					ss = append(ss, telem.NewSeriesV(stamps...), telem.NewSeriesV(vals...))
+				} else {
+					ks = append(ks, gVirt(u))
+					ss = append(ss, telem.NewSeriesV[uint8](uint8(u)))
+				}
+			}
+			auth, err := w.Write(telem.MultiFrame(ks, ss))
+			if err != nil {
+				st.St = "err"
+				st.Err = err.Error()
+				break
+			}
+			st.Auth = 0
+			if auth {
+				st.Auth = 1
+			}
+		case "set":
+			w, ok := writers[o.W]
+			if !ok {
+				st.St = "skip"
+				break
+			}
+			ks, as := unitChannels(o.Units)
+			if err := w.SetAuthority(cesium.WriterConfig{Channels: ks, Authorities: as}); err != nil {
+				st.St = "err"
+				st.Err = err.Error()
+			}
+		case "close":
+			w, ok := writers[o.W]
+			if !ok {
+				st.St = "skip"
+				break
+			}
+			delete(writers, o.W)
+			if err := w.Close(); err != nil {
+				st.St = "err"
+				st.Err = err.Error()
+			}
+		default:
+			st.St = "skip"
+		}
+		out.Steps = append(out.Steps, st)
+	}
+	for id, w := range writers {
+		if err := w.Close(); err != nil {
+			out.Err += fmt.Sprintf("close %d: %v; ", id, err)
+		}
+	}
+	for u := 1; u <= 3; u++ {
+		pair := [2][]int64{{}, {}}
+		fr, err := db.Read(ctx, telem.TimeRangeMax, gIdx(u), gData(u))
+		if err != nil {
+			out.Err += "read: " + err.Error()
+			return out
+		}
+		for k, s := range fr.Entries() {
+			switch k {
+			case gIdx(u):
+				for _, v := range telem.UnmarshalSeries[telem.TimeStamp](s) {
+					pair[0] = append(pair[0], int64(v/telem.SecondTS))
+				}
+			case gData(u):
+				pair[1] = append(pair[1], telem.UnmarshalSeries[int64](s)...)
+			}
+		}
+		out.Read = append(out.Read, pair)
+	}
+	return out
+}
